@@ -28,6 +28,7 @@ import (
 	"runtime"
 	"strings"
 	"sync"
+	"sync/atomic"
 	"time"
 
 	"github.com/vmware/go-ipfix/pkg/collector"
@@ -196,8 +197,20 @@ func perturb(r *Rng, level int) {
 	}
 }
 
+// watchdogs are generous, but once a few have expired in this run (something is already wrong and
+// will be reported) the remaining cases use short ones so that the run still ends in time
+var c12Expired atomic.Int32
+
 // waitUntil polls cond (yielding, then sleeping) until it holds or the watchdog expires.
 func waitUntil(d time.Duration, cond func() bool) bool {
+	if c12Expired.Load() >= 3 && d > 200*time.Millisecond {
+		d = 200 * time.Millisecond
+	}
+	defer func() {
+		if d >= 200*time.Millisecond && !cond() {
+			c12Expired.Add(1)
+		}
+	}()
 	deadline := time.Now().Add(d)
 	for i := 0; ; i++ {
 		if cond() {
